@@ -823,6 +823,87 @@ fn run_sleeper_case<A: Algebra>(case_seed: u64, judge: Judge, _thorough: bool, r
 }
 
 // ------------------------------------------------------------------------------------------------
+// the same at 2^32: one query, 2^32 (-1, +0, +1) whole-range modifications / point assignments straight on the tree (the
+// plain-array model is advanced in closed form: the bulk comes in pairs that cancel, the last operations do not), the same
+// query again. Only for algebras whose modifier has an inverse (range add) or with point assignments; thorough tier.
+
+fn run_sleeper32_case<A: Algebra<Elem = i64>>(case_seed: u64, judge: Judge, gap: u64, inverse: &dyn Fn(&A::Mod) -> A::Mod, rep: &mut Report, verbose: bool) {
+    let mut rng = Rng::new(case_seed);
+    let nonneg = judge == Judge::Search && A::search_needs_nonneg();
+    let n = *rng.pick(&[3usize, 5, 8]);
+    let first = gen_construct::<A>(&mut rng, n, nonneg);
+    let mut cx = Ctx {
+        judge,
+        rep,
+        replay: vec!["--mode".into(), "sleeper32".into(), "--case".into(), format!("{}:{}:{}", A::name(), gap, case_seed)],
+        verbose,
+        algebra: A::name(),
+    };
+    cx.rep.inc("evaluations");
+    cx.rep.inc("sleeper32_histories");
+    cx.rep.see("sleeper_gaps", gap);
+    let r = catch(|| {
+        let (tree, shadow) = construct::<A>(&first);
+        let mut live: Live<A> = Live { tree, shadow, log: vec![format!("{:?}", first)], prev_kind: op_kind(&first) };
+        let probe: Op<A> = match judge {
+            Judge::Fold => {
+                let (l, r) = gen_range(&mut rng, n);
+                Op::Ask(l, r)
+            }
+            Judge::Search => {
+                let p = A::gen_pred(&mut rng, &live.shadow);
+                Op::Lb(rng.usize_below(n), p)
+            }
+        };
+        live.step(&probe, &mut cx);
+        let tail = 3u64;
+        let bulk = gap - tail;
+        let pairs = bulk / 2;
+        let m = A::gen_mod(&mut rng, true);
+        let inv = inverse(&m);
+        if A::has_mod() {
+            for _ in 0..pairs {
+                lib!(live.tree.modify(0, n - 1, &m));
+                lib!(live.tree.modify(0, n - 1, &inv));
+            }
+            if bulk % 2 == 1 {
+                // (one more that does not cancel)
+                live.step(&Op::Modify(0, n - 1, m.clone()), &mut cx);
+            }
+            live.log.push(format!("... {} whole-range modifications in cancelling pairs ({:?} / {:?}), no query ...", pairs * 2, m, inv));
+        } else {
+            let e0 = live.shadow[0];
+            let a = A::leaf(&(e0 + 1));
+            let b = A::leaf(&e0);
+            for _ in 0..pairs {
+                lib!(live.tree.set(0, a.clone()));
+                lib!(live.tree.set(0, b.clone()));
+            }
+            if bulk % 2 == 1 {
+                live.step(&Op::Set(0, e0 + 1), &mut cx);
+            }
+            live.log.push(format!("... {} point assignments at index 0 alternating {} / {}, no query ...", pairs * 2, e0 + 1, e0));
+        }
+        cx.rep.count("sleeper32_bulk_operations", bulk);
+        for _ in 0..tail {
+            let j = rng.usize_below(n);
+            let op: Op<A> = if A::has_mod() && rng.chance(1, 2) { Op::Modify(j.min(1), n - 1, A::gen_mod(&mut rng, true)) } else { Op::Set(j, live.shadow[j] + 1 + rng.below(5) as i64) };
+            live.step(&op, &mut cx);
+        }
+        live.step(&probe, &mut cx);
+        live.final_probe(&mut rng, &mut cx);
+        cx.rep.see("nontrivial", mix(&[case_seed, common::hash_str(&A::name()), gap]));
+    });
+    if let Err(p) = r {
+        if p.in_lib {
+            cx.violation("panic", Json::obj().set("what", "the library panicked on a lawful operation").set("panic", p.msg.as_str()).set("at", format!("{}:{}", p.file, p.line)));
+        } else {
+            cx.rep.inconclusive(format!("harness panic at {}:{}: {}", p.file, p.line, p.msg));
+        }
+    }
+}
+
+// ------------------------------------------------------------------------------------------------
 // very large trees (built-in sums, cheap elements): sizes just above large powers of two, operations biased to the two
 // ends of the array; the plain-array oracle is linear per operation, so only a handful of operations per tree
 
@@ -910,6 +991,9 @@ type PW = PairAlg<FreeWord, LetterCount>;
 type PV = PairAlg<LetterCount, FreeWord>;
 type PH = PairAlg<HashWord, PairAlg<LetterCount, HashWord>>;
 type PN = PairAlg<MinI64, PairAlg<MaxI64, SumI64>>;
+type XT1 = ProdAlg<MinAddI64, TouchCount>;
+type XT2 = ProdAlg<TouchCount, MaxAddI64>;
+type XT3 = ProdAlg<ProdAlg<SumAddI64, TouchCount>, MinAddI64>;
 
 macro_rules! for_each_algebra {
     ($mac:ident) => {
@@ -920,6 +1004,8 @@ macro_rules! for_each_algebra {
         $mac!(MaxI64, 1);
         $mac!(SumI64, 1);
         $mac!(MinI32, 1);
+        $mac!(MinKeyed, 2);
+        $mac!(MaxKeyed, 2);
         $mac!(MaxI32, 1);
         $mac!(SumI32, 1);
         $mac!(MinAddI64, 2);
@@ -945,6 +1031,10 @@ macro_rules! for_each_algebra {
         $mac!(PV, 2);
         $mac!(PH, 2);
         $mac!(PN, 1);
+        $mac!(TouchCount, 1);
+        $mac!(XT1, 3);
+        $mac!(XT2, 2);
+        $mac!(XT3, 2);
     };
 }
 
@@ -1065,6 +1155,44 @@ fn main() {
         }
         report.extra("exhaustive", true);
         report.extra("scopes", Json::Arr(scopes));
+    } else if mode == "sleeper32" {
+        // (gap, algebra) grid; one thread each
+        let gaps: Vec<u64> = match a.opt("gap") {
+            Some(g) => vec![g.parse().expect("--gap")],
+            None => vec![(1u64 << 32) - 1, 1 << 32, (1 << 32) + 1],
+        };
+        type Task = Box<dyn Fn(u64, Judge, u64, &mut Report, bool) + Send + Sync>;
+        let neg = |m: &i64| -*m;
+        let unit = |_m: &()| ();
+        let table: Vec<(String, Task)> = vec![
+            (SumAddI64::name(), Box::new(move |cs, j, g, rep: &mut Report, v| run_sleeper32_case::<SumAddI64>(cs, j, g, &neg, rep, v))),
+            (MinAddI64::name(), Box::new(move |cs, j, g, rep: &mut Report, v| run_sleeper32_case::<MinAddI64>(cs, j, g, &neg, rep, v))),
+            (MaxI64::name(), Box::new(move |cs, j, g, rep: &mut Report, v| run_sleeper32_case::<MaxI64>(cs, j, g, &unit, rep, v))),
+        ];
+        if let Some(case) = a.opt("case") {
+            let parts: Vec<&str> = case.rsplitn(3, ':').collect();
+            let cs: u64 = parts[0].parse().expect("seed");
+            let g: u64 = parts[1].parse().expect("gap");
+            let f = &table.iter().find(|t| t.0 == parts[2]).expect("unknown algebra").1;
+            let mut rep = Report::new();
+            f(cs, judge, g, &mut rep, true);
+            report.merge(rep);
+            eng.finish(report);
+        }
+        let total = (table.len() * gaps.len()) as u64;
+        let q = WorkQueue::new(total);
+        let table = &table;
+        let gaps = &gaps;
+        let rep = common::run_sharded(a.threads().min(total as usize), |_shard, rep| {
+            rep.sample_cap = 0;
+            while let Some(idx) = q.take() {
+                let ai = idx as usize % table.len();
+                let g = gaps[idx as usize / table.len()];
+                (table[ai].1)(mix(&[seed, judge as u64, idx, 0x5132]), judge, g, rep, false);
+            }
+        });
+        report.merge(rep);
+        report.extra("exhaustive", false);
     } else if mode == "sleeper" {
         type Runner = fn(u64, Judge, bool, &mut Report, bool);
         let mut table: Vec<(String, u32, Runner)> = Vec::new();
